@@ -158,12 +158,10 @@ Section Bot.
 
   (* WithTop: [None] is the top; [Some v] reports the inner is_top, which is wrong when the
      inner lattice has a top (the known finding).  Sound exactly when the inner has none. *)
-  Definition NoTop : Prop := forall v, W LV v -> istop LV v = false.
-
-  Lemma top_toplaw : NoTop -> TopLaw (top_ops LV).
+  Lemma top_toplaw : TopLaw (top_ops LV).
   Proof.
-    intros NT [va|] Wa; unft.
-    - rewrite (NT va Wa). split; [discriminate|]. intros Ht. exfalso.
+    intros [va|] Wa; unft.
+    - split; [discriminate|]. intros Ht. exfalso.
       specialize (Ht None Logic.eq_refl). apply (o_Le_iff top_ord) in Ht; [exact Ht|reflexivity|exact Wa].
     - split; [|reflexivity]. intros _ b Wb. apply (o_Le_iff top_ord); [exact Wb|reflexivity|].
       destruct b; exact I.
